@@ -383,7 +383,12 @@ func runC19(r *Run, replay *Case) {
 	}
 	g := &srcGen{r: r.Rng}
 	for i := 0; i < n; i++ {
-		r.Add(c19Eval("gen", c19Generate(g)))
+		src := c19Generate(g)
+		r.Add(c19Eval("gen", src))
+		if i%8 == 0 {
+			// the same source as a Windows checkout stores it
+			r.Add(c19Eval("gen-crlf", strings.ReplaceAll(src, "\n", "\r\n")))
+		}
 	}
 	c19ModelStreams(r)
 }
